@@ -35,8 +35,12 @@ WORLDS = {
     'discrete_3x0x2': ('DiscreteWorld', (3, 0, 2), (1, 0, 1)),
     'space_2.5x0x1': ('SpaceWorld', (2.5, 0, 1), (2.5, 0, 0.5)),
     'space_0.5x2x0': ('SpaceWorld', (0.5, 2, 0), (0.25, 1, 0)),     # an extent strictly between 0 and 1
+    'space_3x2x0_wrap': ('SpaceWorld', (3, 2, 0), (1.5, 0.5, 0), True),       # toroidal worlds reject placements too
+    'grid_3x2_wrap': ('GridWorld', (3, 2), (1, 1), True),
+    'discrete_3x2x2_wrap': ('DiscreteWorld', (3, 2, 2), (2, 1, 1), True),
 }
-QUICK = ['plain', 'space_3x2x0', 'discrete_3x2x2', 'line_3', 'grid_3x2', 'space_0.5x2x0']
+QUICK = ['plain', 'space_3x2x0', 'discrete_3x2x2', 'line_3', 'grid_3x2', 'space_0.5x2x0', 'space_3x2x0_wrap',
+         'grid_3x2_wrap']
 
 META = {
     'rule': 'BFS over add/remove histories per world kind to the fixpoint; in every state the complete fault menu '
@@ -73,8 +77,9 @@ class Harness:
         w.model = Core.Model(seed=1)
         w.pos = ()
         if self.spec:
-            cls, args, pos = self.spec
-            w.model.environment = getattr(Envs, cls)(w.model, *args)
+            cls, args, pos = self.spec[:3]
+            wrap = len(self.spec) > 3 and self.spec[3]
+            w.model.environment = getattr(Envs, cls)(w.model, *args, wrap_env=wrap)
             w.pos = pos
         w.agents = {}
         w.comps = []
@@ -159,10 +164,22 @@ class Harness:
         if len(it) != len(exp) or any(a is not b for a, b in zip(it, exp)):
             raise Violation('iteration order differs from joining order', expected=list(w.ref),
                             observed=[self._key(w, a) for a in it])
-        ga = env.get_agents()
-        if not isinstance(ga, list) or len(ga) != len(exp) or any(a is not b for a, b in zip(ga, exp)):
-            raise Violation('get_agents() differs from the live agents in joining order', expected=list(w.ref),
-                            observed=[self._key(w, a) for a in ga] if isinstance(ga, list) else repr(ga))
+        for attempt in range(3):
+            ga = env.get_agents()
+            if not isinstance(ga, list) or len(ga) != len(exp) or any(a is not b for a, b in zip(ga, exp)):
+                raise Violation('get_agents() differs from the live agents in joining order'
+                                + (' (after the caller modified an earlier listing / called shuffle)' if attempt else ''),
+                                expected=list(w.ref),
+                                observed=[self._key(w, a) for a in ga] if isinstance(ga, list) else repr(ga))
+            # what a caller may do with a listing must not show in the next one; nor may the library's own shuffle
+            if attempt == 0:
+                ga.reverse()
+                ga.append(None)
+                del ga[:1]
+            else:
+                env.shuffle()
+        if len(env) != len(exp) or [a for a in env] != exp:
+            raise Violation('len / iteration changed after listings were modified or shuffled')
         res = self._resident_ids(w)
         for aid in self.ids + ['probe']:
             want = w.agents[res[aid]] if aid in res else None
@@ -189,7 +206,7 @@ class Harness:
                 self._rejected(w, lambda i=aid: env.remove_agent(i), Core.AgentNotFoundError,
                                f'remove of non-resident id {aid}')
         if self.spec:
-            cls, args, pos = self.spec
+            cls, args, pos = self.spec[:3]
             dims = tuple(args) + (0,) * (3 - len(args))
             cont = cls == 'SpaceWorld'
             full = tuple(pos) + (0,) * (3 - len(pos))
@@ -202,6 +219,8 @@ class Harness:
                     outs.append((ax, hi))
                     if not cont:
                         outs.append((ax, dims[ax] + 5))
+                        outs.append((ax, -0.5))                 # fractional coordinates just outside a grid
+                        outs.append((ax, dims[ax] - 0.5))
             bad = []
             for ax, v in outs:
                 p = list(full)
